@@ -118,6 +118,7 @@ type Script struct {
 	NHdrOpt  int          `json:"n_header_opts,omitempty"`
 	NTrlOpt  int          `json:"n_trailer_opts,omitempty"`
 	PeerOpt  bool         `json:"peer_opt,omitempty"`
+	ReuseDest bool `json:"reuse_dest,omitempty"` // each side receives every message into one and the same message value
 	// RecvFirst makes the receiver goroutine start only after the sender
 	// goroutine has finished (needed for HTTP half-duplex).
 	RecvAfterSend bool `json:"recv_after_send,omitempty"`
@@ -209,6 +210,9 @@ type Run struct {
 	// the receives its peer had started (checked when a send returns).
 	leadMu sync.Mutex
 	Lead   []string
+	cReuse, hReuse *tpb.Message // receive destinations with Script.ReuseDest
+	// AfterOpen, if set, runs in the caller's goroutine straight after NewStream returned.
+	AfterOpen func()
 	// OnHandler, if set, runs inside the handler before its script (probes).
 	OnHandler func(ctx context.Context, r *Run, stream grpc.ServerStream)
 	// OnRecv, if set, is called with every message the client receives (fresh object).
@@ -788,12 +792,22 @@ func (r *Run) recvd(handler bool, m *tpb.Message) *tpb.Message {
 		mutateMsg(m)
 		return snap
 	}
+	if r.S.ReuseDest {
+		return proto.Clone(m).(*tpb.Message)
+	}
 	return m
 }
 
 func (r *Run) newHDest() *tpb.Message {
 	if r.HDest != nil {
 		return r.HDest()
+	}
+	if r.S.ReuseDest {
+		// one message value for all receives of this side, as applications that avoid allocations do
+		if r.hReuse == nil {
+			r.hReuse = new(tpb.Message)
+		}
+		return r.hReuse
 	}
 	return new(tpb.Message)
 }
@@ -881,6 +895,12 @@ func (r *Run) newDest() *tpb.Message {
 	if r.Dest != nil {
 		return r.Dest()
 	}
+	if r.S.ReuseDest {
+		if r.cReuse == nil {
+			r.cReuse = new(tpb.Message)
+		}
+		return r.cReuse
+	}
 	return new(tpb.Message)
 }
 
@@ -910,7 +930,12 @@ func (r *Run) execStream(cc grpc.ClientConnInterface, ctx context.Context, opts 
 	if r.streamDescOverride != nil {
 		sd = r.streamDescOverride
 	}
-	pan := guard(func() { st, err = cc.NewStream(ctx, sd, r.S.Kind.Method(), opts...) })
+	pan := guard(func() {
+		st, err = cc.NewStream(ctx, sd, r.S.Kind.Method(), opts...)
+		if r.AfterOpen != nil {
+			r.AfterOpen()
+		}
+	})
 	r.rec(Event{Who: "cs", Op: "newstream", Err: err, Pan: pan})
 	if err != nil || pan != "" || st == nil {
 		r.NewStreamErr = err
